@@ -54,6 +54,9 @@ def run(ctx):
         case(ver, times=ts)
         for life in (604799, 604800, 604801, 0, -1, 1):
             case(ver, life=life, times=[(base_date, 0), (base_date + max(life, 0), 0), (base_date + 5, 0)])
+        # lifetimes whose nanosecond count does not fit int64 (Duration arithmetic wraps; Time.Sub saturates), and other extremes
+        for life in (9223372036, 9223372037, 10**10, 18446744073, 18446744074, 2**62, 2**63 - 1 - base_date, 86400 * 365 * 300):
+            case(ver, life=life, times=[(base_date + 60, 0), (base_date, 0)])
         # methods
         for mth in (b'GET', b'HEAD', b'POST', b'get', b'PUT', b'', b'GETX'):
             case(ver, method=mth)
